@@ -1,6 +1,146 @@
-From Coq Require Import List ZArith QArith Bool.
-From PV Require Import C15.Model C15.Spec C15.Proofs.
+(* C15 — Training control decisions follow the stated rules and survive restarts.
+   Property theorems only: each is closed by [exact <lemma>] and followed by [Print Assumptions].
+   Model.run rnd rd p decl dflt st steps is the controller (update_for_epoch per step, optionally
+   preceded by a restart = new controller on the same history file and state directory);
+   rnd / rd are what printing a rate to the history file / reading it back do (as coded: fmt5 / b64).
+   Spec.s_run is the stated rule: a patience rule remembers the metric value at its last reset and
+   counts consecutive failures; no history, no index arithmetic. *)
+From Coq Require Import List ZArith QArith Bool Lia.
+From PV Require Import C15.Model C15.Spec C15.Proofs C15.Restart C15.OnlyRate.
+Import ListNotations.
 Local Open Scope Z_scope.
-Theorem c15_below_fails : forall ref v thr, below ref v thr = fails ref v thr.
-Proof. exact below_fails. Qed.
-Print Assumptions c15_below_fails.
+
+(* "For every parameter setting and every sequence of per-epoch metrics ...": for every uninterrupted,
+   error-free run in which early stopping has not fired before the last epoch, what the controller
+   returns (update_for_epoch and continue_training), the rate it writes into the optimizer and the rate
+   it records are, epoch by epoch, those of the rules. *)
+Theorem c15_trace_follows_rules : forall rnd rd p decl dflt steps,
+  wf p -> plain decl steps -> quiet_before_last p (s_init p dflt) (map s_val steps) = true ->
+  map obs_core (fst (run rnd rd p decl dflt (init_state p dflt) steps))
+  = map rule_obs (fst (s_run p (s_init p dflt) (map s_val steps))).
+Proof. exact trace_follows_rules. Qed.
+Print Assumptions c15_trace_follows_rules.
+
+(* "the controller stops exactly when the epoch budget is reached or, with early stopping enabled, when
+   for the configured number of consecutive post-burn-in epochs the validation metric has failed to
+   undercut, by the threshold, the value it had when the patience count was last reset" *)
+Theorem c15_stop_iff_rule : forall rnd rd p decl dflt steps x,
+  wf p -> plain decl (steps ++ [x]) -> es_quiet p (s_init p dflt) (map s_val steps) = true ->
+  let s := s_after p dflt (map s_val steps) in
+  exists c ct o info,
+    fst (run rnd rd p decl dflt (init_state p dflt) (steps ++ [x]))
+    = fst (run rnd rd p decl dflt (init_state p dflt) steps) ++ [OOk c ct o info] /\ ct = c /\
+    (c = false <->
+     (exists n, p_num p = Some n /\ n <= Z.of_nat (List.length steps) + 1) \/
+     (0 < es_thr p /\ bad (rule_step (s_es s) (es_thr p) (s_val x)) = es_pat p)).
+Proof. exact stop_iff_rule. Qed.
+Print Assumptions c15_stop_iff_rule.
+
+(* "it multiplies the learning rate by the factor exactly when the analogous reduction criterion fires
+   outside cool-down (and the change is not negligible), never otherwise, and writes the new rate into
+   the optimizer": recorded rate = optimizer rate = [new] *)
+Theorem c15_lr_changes_iff_rule : forall rnd rd p decl dflt steps x,
+  wf p -> plain decl (steps ++ [x]) -> es_quiet p (s_init p dflt) (map s_val steps) = true ->
+  let s := s_after p dflt (map s_val steps) in
+  let old := s_rate s in
+  let fire := bad (rule_step (s_rl s) (rlr_thr p) (s_val x)) =? rlr_pat p in
+  let new := if fire && Qlt_b (rlr_eps p) (old - Qred (old * rlr_fac p)) then Qred (old * rlr_fac p) else old in
+  exists c ct info,
+    fst (run rnd rd p decl dflt (init_state p dflt) (steps ++ [x]))
+    = fst (run rnd rd p decl dflt (init_state p dflt) steps) ++ [OOk c ct new info] /\
+    r_lr info = Some new /\
+    opt (snd (run rnd rd p decl dflt (init_state p dflt) (steps ++ [x]))) = new.
+Proof. exact lr_changes_iff_rule. Qed.
+Print Assumptions c15_lr_changes_iff_rule.
+
+(* the anchored mechanism "reference epoch recovered as epoch - patience + countdown - 1": in every
+   reachable history that index is the last epoch whose stored patience countdown was full, for the
+   early-stopping and for the learning-rate rule *)
+Theorem c15_reference_epoch_is_last_reset : forall rnd rd p decl dflt steps prev,
+  wf p -> plain decl steps -> quiet_before_last p (s_init p dflt) (map s_val steps) = true ->
+  let c := cache (snd (run rnd rd p decl dflt (init_state p dflt) steps)) in
+  hget c (last_epoch c) = Some prev ->
+  let epoch := last_epoch c + 1 in
+  let es_epoch := epoch - es_pat p + r_espcd prev - 1 in
+  let rlr_epoch := epoch - rlr_pat p + r_rlrpcd prev - 1 in
+  ((exists rj, hget c es_epoch = Some rj /\ r_espcd rj = es_pat p) /\
+   (forall i ri, es_epoch < i <= last_epoch c -> hget c i = Some ri -> r_espcd ri < es_pat p)) /\
+  ((exists rj, hget c rlr_epoch = Some rj /\ r_rlrpcd rj = rlr_pat p) /\
+   (forall i ri, rlr_epoch < i <= last_epoch c -> hget c i = Some ri -> r_rlrpcd ri < rlr_pat p)).
+Proof. exact reference_epoch_is_last_reset. Qed.
+Print Assumptions c15_reference_epoch_is_last_reset.
+
+(* "Discarding the controller after any epoch and constructing a new one from the same history file
+   and state directory reproduces, from then on, the same decisions, learning rates and recorded
+   history as an uninterrupted run": any subset of restart points, any inputs (also rejected keyword
+   arguments), provided every rate the uninterrupted run reaches survives the write/read round trip *)
+Theorem c15_restart_equivalent : forall rnd rd p decl dflt steps,
+  NoDup (map fst decl) ->
+  (forall r l, In r (cache (snd (run rnd rd p decl dflt (init_state p dflt) (clear_restarts steps)))) ->
+               r_lr r = Some l -> rd (rnd l) = l) ->
+  run rnd rd p decl dflt (init_state p dflt) steps
+  = run rnd rd p decl dflt (init_state p dflt) (clear_restarts steps).
+Proof. exact restart_equivalent. Qed.
+Print Assumptions c15_restart_equivalent.
+
+(* known finding K4: without that proviso the clause is false of the code as it is ("{:.4e}" then
+   float()): default rate 0.0123456789, factor 1/2, restart after epoch 1 *)
+Theorem c15_restart_rate_refuted :
+  exists p decl dflt steps,
+    wf p /\ NoDup (map fst decl) /\ plain decl (clear_restarts steps) /\ b64 dflt = dflt /\
+    let a := run fmt5 b64 p decl dflt (init_state p dflt) steps in
+    let b := run fmt5 b64 p decl dflt (init_state p dflt) (clear_restarts steps) in
+    map obs_cont (fst a) = map obs_cont (fst b) /\
+    b64 (fmt5 dflt) <> dflt /\
+    map obs_rate (fst a) = [Some dflt; Some (Qred (b64 (fmt5 dflt) * (1 # 2))); Some (Qred (b64 (fmt5 dflt) * (1 # 4)))] /\
+    map obs_rate (fst b) = [Some dflt; Some (Qred (dflt * (1 # 2))); Some (Qred (dflt * (1 # 4)))] /\
+    map c_lr (csv (snd a)) <> map c_lr (csv (snd b)).
+Proof. exact restart_rate_refuted. Qed.
+Print Assumptions c15_restart_rate_refuted.
+
+(* ... and that is all that can go wrong: for ANY print/read rounding, any inputs and any restart
+   points, decisions, exceptions, countdowns, metrics and user entries - per epoch, in the final
+   cache and in the history file - equal those of the uninterrupted run; only rate fields may differ *)
+Theorem c15_restart_only_rate_differs : forall rnd rd p decl dflt steps,
+  NoDup (map fst decl) ->
+  let a := run rnd rd p decl dflt (init_state p dflt) steps in
+  let b := run rnd rd p decl dflt (init_state p dflt) (clear_restarts steps) in
+  map strip_obs (fst a) = map strip_obs (fst b) /\
+  map strip_row (cache (snd a)) = map strip_row (cache (snd b)) /\
+  map strip_crow (csv (snd a)) = map strip_crow (csv (snd b)).
+Proof. exact restart_only_rate_differs. Qed.
+Print Assumptions c15_restart_only_rate_differs.
+
+(* "User-defined entries are stored and returned with their declared types": the recorded row holds,
+   for every declared entry, the value that was passed, of the declared kind, and what a new
+   controller parses from the history line is that same list of typed values *)
+Theorem c15_user_entries_typed : forall rnd p decl dflt st tr v kw c st',
+  NoDup (map fst decl) -> update rnd p decl dflt st tr v kw = inr (c, st') ->
+  exists info line,
+    cache st' = cache st ++ [info] /\ csv st' = csv st ++ [line] /\
+    map fst (r_user info) = map fst decl /\
+    (forall n k, In (n, k) decl -> exists w, In (n, w) (r_user info) /\ kind_of w = k /\ kw_get kw n = Some w) /\
+    parse_cells decl (c_user line) = Some (r_user info).
+Proof. exact user_entries_typed. Qed.
+Print Assumptions c15_user_entries_typed.
+
+(* non-vacuity: a run with patience 5 and 2, burn-in, cool-down, a user entry, a restart, two rate
+   reductions and an early stop at the last epoch meets every hypothesis above *)
+Example c15_nonvacuous :
+  let p := mkParams (Some 9) None 4 5 1 4 (1 # 2) 2 1 (1 # 100000000) 0 in
+  let decl := [(0%nat, KInt)] in
+  let kw := fun z => [(0%nat, VInt z)] in
+  let steps := [mkStep false 1 8 (kw 5); mkStep false 2 8 (kw 6); mkStep true 3 8 (kw 7); mkStep false 4 8 (kw 8);
+                mkStep true 5 8 (kw 9); mkStep false 6 8 (kw 10)] in
+  wf p /\ NoDup (map fst decl) /\ plain decl (clear_restarts steps) /\
+  quiet_before_last p (s_init p 1) (map s_val steps) = true /\
+  all_rates_fixed fmt5 b64 p decl 1 (clear_restarts steps) = true /\
+  map obs_core (fst (run fmt5 b64 p decl 1 (init_state p 1) steps))
+  = [Some (true, true, 1, Some 1); Some (true, true, 1, Some 1); Some (true, true, 1 # 2, Some (1 # 2));
+     Some (true, true, 1 # 2, Some (1 # 2)); Some (true, true, 1 # 2, Some (1 # 2));
+     Some (false, false, 1 # 4, Some (1 # 4))]%Q.
+Proof.
+  cbv zeta. split; [unfold wf; cbn; lia|]. split; [repeat constructor; cbn; intuition|].
+  split; [repeat constructor; cbn; eauto|].
+  split; [vm_compute; reflexivity|]. split; vm_compute; reflexivity.
+Qed.
